@@ -401,7 +401,23 @@ func classOf(q *refql.Query) []string {
 		} else {
 			c = append(c, "call-without-interval")
 		}
-		if len(q.Proj) > 1 {
+		if n := len(q.Calls()); n > 1 {
+			c = append(c, "multi-call", fmt.Sprintf("multi-call:%d-calls", n))
+			if q.Interval > 0 {
+				c = append(c, "multi-call:groupby-time", "multi-call:fill:"+q.Fill.String())
+			} else {
+				c = append(c, "multi-call:without-interval")
+			}
+			if q.Desc {
+				c = append(c, "multi-call:order-desc")
+			}
+			if q.Proj[0].Alias != "" {
+				c = append(c, "multi-call:aliased")
+			}
+			if q.Limit > 0 || q.RowOffset > 0 {
+				c = append(c, "multi-call:limit-offset")
+			}
+		} else if len(q.Proj) > 1 {
 			c = append(c, "selector+tags")
 		}
 	} else {
@@ -463,6 +479,13 @@ func drawQuery(t *rapid.T, ds *dataset, d *refql.Data) *refql.Query {
 	isCall := roll(t, 100, "isCall") < 62
 	outKind := refql.Float
 	selector := false
+	callFns := func(k refql.Kind) []string {
+		switch k {
+		case refql.Float, refql.Integer, refql.Unsigned:
+			return []string{"count", "sum", "mean", "min", "max", "first", "last"}
+		}
+		return []string{"count", "first", "last"}
+	}
 	if isCall {
 		f := pick(t, fields, "callField")
 		var fns []string
@@ -496,13 +519,16 @@ func drawQuery(t *rapid.T, ds *dataset, d *refql.Data) *refql.Query {
 
 	// GROUP BY time: always with explicit lower and upper bounds
 	withInterval := isCall && roll(t, 100, "withInterval") < 70
+	wantMulti := isCall && roll(t, 100, "multiCall") < 38
 	var lo, hi int64
 	if withInterval || roll(t, 100, "timeBounds") < 55 {
 		lo, hi = drawInstant(t, ds, "lo"), drawInstant(t, ds, "hi")
 		if lo > hi && roll(t, 20, "inverted") != 0 {
 			lo, hi = hi, lo
 		}
-		if roll(t, 10, "wide") < 5 { // the whole data set
+		// the whole data set (more often for several calls over intervals: the per-call streams
+		// should have a few intervals each to differ in)
+		if roll(t, 10, "wide") < map[bool]int{true: 7, false: 5}[wantMulti && withInterval] {
 			lo, hi = baseTime-10*minute, baseTime+int64(ds.Hours)*hour+10*minute
 		}
 		hasLo := withInterval || roll(t, 4, "hasLo") != 0
@@ -520,6 +546,91 @@ func drawQuery(t *rapid.T, ds *dataset, d *refql.Data) *refql.Query {
 		if rapid.Bool().Draw(t, "swapBounds") {
 			for i, j := 0, len(q.Times)-1; i < j; i, j = i+1, j-1 {
 				q.Times[i], q.Times[j] = q.Times[j], q.Times[i]
+			}
+		}
+	}
+	// several calls in one statement: each call is evaluated over the points that have its field
+	// and the per-call rows are joined on time. Fields with different coverage (the usual case:
+	// every write carries a random subset of the series' fields) make the per-call streams differ.
+	multi := false
+	fn0Selector := selector
+	allNumeric := outKind == refql.Float || outKind == refql.Integer || outKind == refql.Unsigned
+	anyUnsigned := outKind == refql.Unsigned
+	if wantMulti {
+		known := ds.fieldsKnownIn(measurement, q)
+		// other: different fields that some series has together with the first call's field (calls
+		// over fields of different series never meet in one output series unless series are merged)
+		together := map[string]bool{}
+		bySeries := map[string]map[string]bool{}
+		for _, p := range d.Points {
+			k := fmt.Sprint(p.Tags)
+			if bySeries[k] == nil {
+				bySeries[k] = map[string]bool{}
+			}
+			for f := range p.Fields {
+				bySeries[k][f] = true
+			}
+		}
+		for _, fs := range bySeries {
+			if fs[q.Proj[0].Name] {
+				for f := range fs {
+					together[f] = true
+				}
+			}
+		}
+		var cand, other []fieldUse
+		for _, f := range fields {
+			if known[f.name] {
+				cand = append(cand, f)
+				if f.name != q.Proj[0].Name && together[f.name] {
+					other = append(other, f)
+				}
+			}
+		}
+		if !known[q.Proj[0].Name] || len(cand) == 0 {
+			// a call on a name that no queried shard knows as a field yields a column of nulls whatever
+			// the fill option says; what it should yield is not documented
+			rec.Class("dropped:several-calls-with-field-unknown-in-queried-shards")
+		} else {
+			multi, selector = true, false
+			extra := pick(t, []int{1, 1, 1, 2, 2, 3}, "extraCalls")
+			for e := 0; e < extra; e++ {
+				from := cand
+				if len(other) > 0 && roll(t, 5, "otherField") != 0 {
+					from = other
+				}
+				f := pick(t, from, "callField")
+				fn := pick(t, callFns(f.kind), "func")
+				same := false
+				for _, p := range q.Proj {
+					same = same || (p.Func == fn && p.Name == f.name)
+				}
+				if same {
+					// the same call twice is one call with two columns: whether a lone selector written
+					// twice still returns the time of its point is not documented
+					rec.Class("dropped:same-call-twice-in-one-statement")
+					continue
+				}
+				q.Proj = append(q.Proj, refql.Proj{Kind: refql.ProjCall, Func: fn, Name: f.name})
+				k := refql.OutputKind(fn, f.kind)
+				allNumeric = allNumeric && (k == refql.Float || k == refql.Integer || k == refql.Unsigned)
+				anyUnsigned = anyUnsigned || k == refql.Unsigned
+			}
+			if len(q.Proj) == 1 {
+				multi, selector = false, fn0Selector
+			}
+			// column names: a call's column is named after its function; when a function occurs twice
+			// (or one time in four anyway) every call gets an alias
+			dup := false
+			for i := range q.Proj {
+				for j := 0; j < i; j++ {
+					dup = dup || q.Proj[i].Func == q.Proj[j].Func
+				}
+			}
+			if dup || roll(t, 4, "alias") == 0 {
+				for i := range q.Proj {
+					q.Proj[i].Alias = fmt.Sprintf("c%d", i)
+				}
 			}
 		}
 	}
@@ -571,7 +682,11 @@ func drawQuery(t *rapid.T, ds *dataset, d *refql.Data) *refql.Query {
 			q.HasOffset, q.Offset = true, int64(rapid.IntRange(0, 1).Draw(t, "offNs"))
 		}
 		modes := []refql.FillMode{refql.FillDefault, refql.FillNull, refql.FillNone, refql.FillPrevious}
-		if outKind == refql.Float || outKind == refql.Integer || outKind == refql.Unsigned {
+		if multi {
+			// under fill(none) the calls are not in lock step: every call reports its own intervals
+			modes = append(modes, refql.FillNone, refql.FillNone, refql.FillNone, refql.FillNone)
+		}
+		if allNumeric {
 			modes = append(modes, refql.FillValue, refql.FillLinear, refql.FillPrevious, refql.FillLinear)
 		} else {
 			rec.Class("dropped:fill-value-or-linear-on-string-or-boolean-result")
@@ -579,7 +694,7 @@ func drawQuery(t *rapid.T, ds *dataset, d *refql.Data) *refql.Query {
 		q.Fill = pick(t, modes, "fill")
 		if q.Fill == refql.FillValue {
 			q.FillInt = int64(rapid.IntRange(0, 9).Draw(t, "fillValue"))
-			if outKind != refql.Unsigned && rapid.Bool().Draw(t, "fillNeg") {
+			if !anyUnsigned && rapid.Bool().Draw(t, "fillNeg") {
 				q.FillInt = -q.FillInt
 			}
 		}
@@ -599,7 +714,7 @@ func drawQuery(t *rapid.T, ds *dataset, d *refql.Data) *refql.Query {
 			}
 		}
 	}
-	q.Desc = roll(t, 10, "desc") < 3
+	q.Desc = roll(t, 10, "desc") < map[bool]int{true: 4, false: 3}[multi]
 	grouped := len(q.GroupBy) > 0 || q.GroupAll
 	if roll(t, 100, "limits") < 40 {
 		q.Limit = rapid.IntRange(1, 6).Draw(t, "limit")
